@@ -145,10 +145,12 @@ def frame (magic command payload : Bytes) : Bytes :=
 
 /-! ### payloads -/
 
-/-- network address: optional u32 time, u64 services, 16-byte IPv6/IPv4-mapped address,
-    u16 port in network byte order -/
+/-- network address: u32 time (only in messages that carry it, and only from protocol version 31402 —
+    the address's protocol version is the version of the message it travels in), u64 services, 16-byte
+    IPv6/IPv4-mapped address, u16 port in network byte order -/
 def netAddr (withTime : Bool) (a : NetAddr) : Bytes :=
-  (if withTime then leBytes 4 a.nTime else []) ++ leBytes 8 a.nServices ++ a.ip ++ beBytes 2 a.port
+  (if withTime && decide (a.protover ≥ caddrTimeVersion) then leBytes 4 a.nTime else []) ++
+    leBytes 8 a.nServices ++ a.ip ++ beBytes 2 a.port
 
 /-- inventory vector entry: 4-byte type, 32-byte hash -/
 def invEntry (i : Inv) : Bytes := leBytesInt 4 i.type ++ i.hash
@@ -210,10 +212,11 @@ def streamTrace (magic : Bytes) : List Msg → Bytes → List (Option Msg × Byt
 
 /-! ### field ranges ("field values the protocol version carries") -/
 
-/-- an address as the library constructs it: protocol version `PROTO_VERSION` (which carries the
-    time field), u32 time, u64 services, 16 packed address bytes, u16 port -/
+/-- an address of any protocol version: u32 time (0 where the version carries none: below 31402),
+    u64 services, 16 packed address bytes, u16 port -/
 def WFAddr (a : NetAddr) : Prop :=
-  a.protover = protoVersion ∧ a.nTime < 2 ^ 32 ∧ a.nServices < 2 ^ 64 ∧ a.ip.length = 16 ∧ a.port < 2 ^ 16
+  a.nTime < 2 ^ 32 ∧ (a.protover < caddrTimeVersion → a.nTime = 0) ∧ a.nServices < 2 ^ 64 ∧
+  a.ip.length = 16 ∧ a.port < 2 ^ 16
 
 /-- an address travelling without its time field (inside `version`): parsing yields time 0 -/
 def WFAddrNoTime (a : NetAddr) : Prop := WFAddr a ∧ a.nTime = 0
@@ -230,10 +233,11 @@ def optWF {α} (P : α → Prop) : Option α → Prop
 
 /-- `version` with exactly the fields its protocol version carries: `addr_from`, `nonce`, `user_agent`
     from 106, `start_height` from 209, `relay` from 70001 (BIP37) — below 70001 the message carries no
-    relay flag and the receiver assumes `true` (1).  Version 10300 is excluded: the reference client
-    and the library read it as 300. -/
+    relay flag and the receiver assumes `true` (1).  Every int32 version is in the domain, 10300
+    included: a version field of 10300 is carried as 10300 (that the library, like the reference
+    client, reads it as 300 is finding D24). -/
 def WFVersion (v : VersionMsg) : Prop :=
-  -(2 ^ 31 : Int) ≤ v.nVersion ∧ v.nVersion < 2 ^ 31 ∧ v.nVersion ≠ 10300 ∧ v.nServices < 2 ^ 64 ∧
+  -(2 ^ 31 : Int) ≤ v.nVersion ∧ v.nVersion < 2 ^ 31 ∧ v.nServices < 2 ^ 64 ∧
   -(2 ^ 63 : Int) ≤ v.nTime ∧ v.nTime < 2 ^ 63 ∧ WFAddrNoTime v.addrTo ∧
   (if v.nVersion ≥ 106 then
      optWF WFAddrNoTime v.addrFrom ∧ optWF (· < 2 ^ 64) v.nNonce ∧
@@ -242,6 +246,18 @@ def WFVersion (v : VersionMsg) : Prop :=
   (if v.nVersion ≥ 209 then optWF (fun h : Int => -(2 ^ 31 : Int) ≤ h ∧ h < 2 ^ 31) v.nStartingHeight
    else v.nStartingHeight = none) ∧
   (if v.nVersion ≥ 70001 then v.fRelay < 256 else v.fRelay = 1)
+
+def optAll {α} (P : α → Prop) : Option α → Prop
+  | some x => P x
+  | none => True
+
+/-- the address entries of the message belong to protocol version `pv` — the version negotiated on the
+    connection, which the reader is told (`stream_deserialize(f, protover=pv)`) and which governs
+    whether an `addr` entry carries its time field -/
+def AddrProto (pv : Nat) : Msg → Prop
+  | .version v => v.addrTo.protover = pv ∧ optAll (fun a : NetAddr => a.protover = pv) v.addrFrom
+  | .addr as => ∀ a ∈ as, a.protover = pv
+  | _ => True
 
 /-- the payload-level well-formedness of each message type -/
 def WFMsg : Msg → Prop
@@ -269,6 +285,14 @@ instance decOptWF {α} (P : α → Prop) [DecidablePred P] : DecidablePred (optW
   match o with
   | some x => inferInstanceAs (Decidable (P x))
   | none => inferInstanceAs (Decidable False)
+
+instance decOptAll {α} (P : α → Prop) [DecidablePred P] : DecidablePred (optAll P) := fun o =>
+  match o with
+  | some x => inferInstanceAs (Decidable (P x))
+  | none => inferInstanceAs (Decidable True)
+
+instance decAddrProto (pv : Nat) : DecidablePred (AddrProto pv) := fun m => by
+  cases m <;> (unfold AddrProto; exact inferInstance)
 
 instance decWFAddr : DecidablePred WFAddr := fun a => by unfold WFAddr; exact inferInstance
 instance decWFAddrNoTime : DecidablePred WFAddrNoTime := fun a => by unfold WFAddrNoTime; exact inferInstance
